@@ -33,7 +33,9 @@ def main():
         for c in [prop] + ([] if os.environ.get('ONLY_OWN') else ALSO.get(prop, [])):
             out = sh("cd %s && VERIF_REPO=%s timeout 1800 ./check %s" % (V, W, c)).stdout
             v = [l for l in out.split("\n") if l.startswith("VIOLATION")]
-            if not v:
+            if not v and not re.search(r"^%s \w+: ok" % c, out, re.M):
+                res[c] = "inconclusive: the check did not finish"
+            elif not v:
                 res[c] = "missed"
             elif any("no-failing-input-found" not in l for l in v):
                 res[c] = "caught: concrete failing input"
